@@ -141,6 +141,32 @@ def signature(kind, name, payload):
 	return f'{kind}:{name}:' + hashlib.sha256(repr(payload).encode('utf8')).hexdigest()[:12]
 
 
+def pairing_values(net, generator, model, tier):
+	"""For every array member whose element type is an abstract family: each concrete child once FOLLOWED by another element (so that
+	where its encoding ends matters) and once last."""
+	base = None
+	for field in codec.settable_fields(model):
+		if not codec.is_array(field) or codec.is_byte_array(field) or not isinstance(field.field_type.element_type, str):
+			continue
+		element = net.by_name.get(field.field_type.element_type)
+		if element is None or codec.kind(element) != 'Struct' or not element.is_abstract or field.is_conditional:
+			continue
+		children = net.children.get(element.name, [])
+		if isinstance(field.field_type.size, int) and not field.field_type.is_expandable and field.field_type.size != 2:
+			continue
+		if tier == 'quick':
+			children = children[::2] if len(children) > 12 else children
+		for child in children:
+			if base is None:
+				base = generator.struct(model, 0)
+			first = generator.struct(child, 1)
+			follower = generator.struct(generator.rng.choice(children), 1)
+			for pair in ([first, follower], [follower, first]):
+				if field.field_type.sort_key:
+					continue
+				yield ('S', base[1], [(name, pair if name == field.name else value) for name, value in base[2]])
+
+
 def run_network(check, net, per_class, per_class_mutants):
 	rng = check.rng
 	generator = codec.Generator(net, rng, long_arrays=(check.tier == 'thorough'))
@@ -157,11 +183,17 @@ def run_network(check, net, per_class, per_class_mutants):
 		is_abstract = codec.kind(model) == 'Struct' and model.is_abstract
 		encodings = []
 		structured_sources = []
-		for index in range(per_class + 3):
-			# the first values of every class: all variable-length members empty (twice: both arms of the alternating conditionals), then longest
-			generator.extreme = {0: 'min', 1: 'min', 2: 'max'}.get(index)
-			tree = generator.struct(model, 0) if is_abstract else generator.named(name)
-			generator.extreme = None
+		def class_values():
+			for index in range(per_class + 3):
+				# the first values of every class: all variable-length members empty (twice: both arms of the alternating conditionals), then longest
+				generator.extreme = {0: 'min', 1: 'min', 2: 'max'}.get(index)
+				value = generator.struct(model, 0) if is_abstract else generator.named(name)
+				generator.extreme = None
+				yield value
+			if not is_abstract and codec.kind(model) == 'Struct':
+				yield from pairing_values(net, generator, model, check.tier)
+
+		for tree in class_values():
 			try:
 				obj = codec.to_object(net, name, tree)
 			except codec.Inadmissible:
